@@ -295,6 +295,90 @@ theorem C20_mibcopy_provenance (srcs : List Src) : ∀ (d0 : List (String × Rev
       · exact Or.inr ⟨s, by simp, k1, k2⟩
     · exact Or.inr ⟨s', List.mem_cons_of_mem _ hs', hn, hv⟩
 
+/-! ### `mibcopy --dry-run` -/
+
+theorem copyStepDry_dst (a : Bool) (st : CopyState) (s : Src) : (copyStepDry a st s).dst = st.dst := by
+  unfold copyStepDry; split <;> rfl
+
+/-- **C20_mibcopy_dry_run**: a dry run leaves the destination as it found it, whatever the sources and their order. -/
+theorem C20_mibcopy_dry_run (a : Bool) (srcs : List Src) : ∀ (st : CopyState),
+    (srcs.foldl (copyStepDry a) st).dst = st.dst := by
+  induction srcs with
+  | nil => intro st; rfl
+  | cons s rest ih => intro st; simp only [List.foldl_cons]; rw [ih, copyStepDry_dst]
+
+/-- what the dry run and the real run have in common: the script's revision cache, and - for every name the cache does not
+hold yet - what the destination holds -/
+def DrySim (real dry : CopyState) : Prop :=
+  real.cache = dry.cache ∧ ∀ n, dry.cache.lookup n = none → lookupDst real.dst n = lookupDst dry.dst n
+
+theorem dstRevOf_sim (real dry : CopyState) (h : DrySim real dry) (n : String) : dstRevOf real n = dstRevOf dry n := by
+  unfold dstRevOf
+  rw [h.1]
+  cases hc : dry.cache.lookup n with
+  | some r => rfl
+  | none => simp only; rw [h.2 n hc]
+
+theorem cacheLooked_lookup_self (st : CopyState) (n : String) (r : Option Nat) : ((cacheLooked st n r).lookup n).isSome = true := by
+  unfold cacheLooked
+  cases hc : st.cache.lookup n with
+  | some r0 => simp [hc]
+  | none => simp [hc, lookup_setCache]
+
+theorem cacheLooked_lookup_ne (st : CopyState) (n n' : String) (r : Option Nat) (h : n' ≠ n) :
+    (cacheLooked st n r).lookup n' = st.cache.lookup n' := by
+  unfold cacheLooked
+  cases hc : st.cache.lookup n with
+  | some r0 => rfl
+  | none => simp [lookup_setCache, h]
+
+theorem drySim_step (a : Bool) (real dry : CopyState) (s : Src) (h : DrySim real dry) :
+    DrySim (copyStep a real s) (copyStepDry a dry s) := by
+  have hrev := dstRevOf_sim real dry h s.name
+  have hcl : cacheLooked real s.name (dstRevOf dry s.name) = cacheLooked dry s.name (dstRevOf dry s.name) := by
+    unfold cacheLooked; rw [h.1]
+  unfold copyStep copyStepDry
+  rw [hrev]
+  split
+  · -- skipped in both
+    refine ⟨by simp only; rw [hcl], ?_⟩
+    intro n hn
+    simp only at hn ⊢
+    by_cases hne : n = s.name
+    · subst hne
+      have := cacheLooked_lookup_self dry s.name (dstRevOf dry s.name)
+      rw [hn] at this; cases this
+    · rw [cacheLooked_lookup_ne dry s.name n _ hne] at hn
+      exact h.2 n hn
+  · -- copied in the real run, recorded in both
+    refine ⟨by simp only; rw [hcl], ?_⟩
+    intro n hn
+    simp only at hn ⊢
+    by_cases hne : n = s.name
+    · subst hne
+      rw [lookup_setCache] at hn
+      simp at hn
+    · rw [lookup_setCache, if_neg hne, cacheLooked_lookup_ne dry s.name n _ hne] at hn
+      rw [lookupDst_setDst, if_neg hne]
+      exact h.2 n hn
+
+/-- **C20_mibcopy_dry_report**: every decision of a dry run (copy / do not copy, hence every COPIED / NOT COPIED line of the
+report) is the decision the real run takes at that point: the revision caches of the two runs are equal after any prefix of
+the sources. -/
+theorem C20_mibcopy_dry_report (a : Bool) (srcs : List Src) : ∀ (real dry : CopyState), DrySim real dry →
+    DrySim (srcs.foldl (copyStep a) real) (srcs.foldl (copyStepDry a) dry) := by
+  induction srcs with
+  | nil => intro real dry h; exact h
+  | cons s rest ih => intro real dry h; simp only [List.foldl_cons]; exact ih _ _ (drySim_step a real dry s h)
+
+theorem C20_mibcopy_dry (a : Bool) (dst : List (String × Rev × Nat)) (srcs : List Src) :
+    (mibcopyDry a dst srcs).dst = dst ∧ (mibcopyDry a dst srcs).cache = (mibcopy a dst srcs).cache := by
+  refine ⟨C20_mibcopy_dry_run a srcs _, ?_⟩
+  exact (C20_mibcopy_dry_report a srcs { dst := dst, cache := [] } { dst := dst, cache := [] } ⟨rfl, fun _ _ => rfl⟩).1.symm
+
+example : (mibcopyDry true [] [⟨"A", some 5, 1⟩, ⟨"A", some 3, 2⟩]).dst = [] ∧
+    (mibcopyDry true [] [⟨"A", some 5, 1⟩, ⟨"A", some 3, 2⟩]).cache = [("A", some 5)] := by decide
+
 /-- **C20_mibcopy_epoch_witness**: with an absent destination compared as the epoch (the pinned script), a module without a
 REVISION clause is never copied into an empty destination; with the repaired comparison it is. -/
 theorem C20_mibcopy_epoch_witness :
